@@ -318,6 +318,27 @@ func main() {
 		seed, _ := strconv.ParseUint(os.Args[2], 10, 64)
 		n, _ := strconv.Atoi(os.Args[3])
 		exploreFlatten(seed, n)
+	case "gen-flatten":
+		// development aid: print the child request of the flatten stream for (seed, index)
+		seed, _ := strconv.ParseUint(os.Args[2], 10, 64)
+		idx, _ := strconv.Atoi(os.Args[3])
+		g := NewGen(seed, flattenStream.Stream<<32|uint64(idx))
+		in, _ := flattenStream.Gen(g, idx)
+		os.Stdout.Write(mustJSON(childReq{Op: "flatten", In: in}))
+		fmt.Println()
+	case "explore-phases":
+		seed, _ := strconv.ParseUint(os.Args[2], 10, 64)
+		scale, _ := strconv.Atoi(os.Args[3])
+		res := phasesStreamRun(&Ctx{Prop: "", Tier: "quick", Seed: seed, Scale: scale})
+		for _, f := range res.Findings {
+			fmt.Printf("--- %s %s\n    %s\n    opts: %s\n    bundle: %s\n    model: %s\n", f.Kind, f.Signature, truncate(f.Detail, 700), canonStr(get(f.Case.In, "opts")), truncate(string(mustJSON(get(f.Case.In, "bundle"))), 1500), truncate(string(mustJSON(f.Model)), 600))
+		}
+		for _, k := range sortedKeys(res.Features) {
+			if strings.HasPrefix(k, "steps:") || strings.HasPrefix(k, "phase:") || strings.HasPrefix(k, "changed:") || strings.HasPrefix(k, "driver:") || strings.HasPrefix(k, "impl:") {
+				fmt.Printf("%6d  %s\n", res.Features[k], k)
+			}
+		}
+		fmt.Println("evaluations", res.Evaluations, "nontrivial", res.Nontrivial, "findings", len(res.Findings))
 	case "racerun":
 		seed, _ := strconv.ParseUint(os.Args[2], 10, 64)
 		docs, _ := strconv.Atoi(os.Args[3])
